@@ -1345,7 +1345,50 @@ func (ev *Event) Serialize() ([]byte, error) {
 	if err != nil {
 		return nil, fmt.Errorf("failed to marshal event: %w", err)
 	}
+	ret = unescapeNIP01(ret)
 	return ret, nil
+}
+
+// unescapeNIP01 undoes the escapes encoding/json adds beyond the ones NIP-01
+// mandates: <, >, & and U+2028, U+2029 must be serialized verbatim.
+func unescapeNIP01(b []byte) []byte {
+	if !bytes.Contains(b, []byte(`\u`)) {
+		return b
+	}
+
+	ret := make([]byte, 0, len(b))
+	for i := 0; i < len(b); i++ {
+		if b[i] != '\\' || i+1 >= len(b) {
+			ret = append(ret, b[i])
+			continue
+		}
+
+		if b[i+1] == 'u' && i+6 <= len(b) {
+			var raw string
+			switch string(b[i+2 : i+6]) {
+			case "003c":
+				raw = "<"
+			case "003e":
+				raw = ">"
+			case "0026":
+				raw = "&"
+			case "2028":
+				raw = "\u2028"
+			case "2029":
+				raw = "\u2029"
+			}
+			if raw != "" {
+				ret = append(ret, raw...)
+				i += 5
+				continue
+			}
+		}
+
+		// any other escape sequence (including an escaped backslash) is kept as is
+		ret = append(ret, b[i], b[i+1])
+		i++
+	}
+	return ret
 }
 
 func (ev *Event) Verify() (bool, error) {
